@@ -152,7 +152,7 @@ def run(prog, rep):
         okp = vsz is not None and ksz is not None
         vmax = vsz
     lg = u.fn("p_ini_file_parameter_list")
-    bsz = arr_size(lg, "buf")
+    bsz = None
     bufname = None
     for b, i, n in lg.nodes():
         if n["k"] == "decl" and lg.unit.types[n["t"]].get("k") == "arr":
@@ -163,7 +163,19 @@ def run(prog, rep):
     rep.floor("C16.2", 1)
 
     # ---- C16.3 / C16.4: typestate over the parse loop ---------------------------------------------
-    TR = ("section", "dst_line", "in_file")
+    def var_assigned_from(fn, callee, argroot=None):
+        for b, i, n in fn.nodes():
+            if n["k"] == "asg" and strip_casts(n["l"])["k"] == "ref":
+                r = strip_casts(n["r"])
+                if r is not None and r["k"] == "call" and r.get("callee") == callee and (argroot is None or root_var(r["args"][0]) == argroot):
+                    return strip_casts(n["l"])["name"]
+        return None
+    V_LINE = var_assigned_from(ps, "p_strchomp", linebuf)
+    V_FILE = var_assigned_from(ps, "fopen")
+    V_SEC = var_assigned_from(ps, "pp_ini_file_section_new")
+    if not (V_LINE and V_FILE and V_SEC):
+        raise AnalysisBroken("p_ini_file_parse: line / file / section variables not found")
+    TR = (V_SEC, V_LINE, V_FILE)
     probs = []
     linked = [0]
 
@@ -182,16 +194,16 @@ def run(prog, rep):
                     sec = root_var(lst)
                     if not any(fk == sec and fop == "!=" and fv == 0 for (fk, fop, fv) in facts):
                         probs.append(("C16.3", "param:nosection", "line %d: a parameter is attached while no section is open" % line(c), line(c)))
-            if cn == "p_free" and root_var(c["args"][0]) == "dst_line":
+            if cn == "p_free" and root_var(c["args"][0]) == V_LINE:
                 ln_live = False
             if cn == "fclose":
                 file_open = False
         for n in walk(stmt):
-            if n["k"] == "asg" and root_var(n["l"]) == "dst_line" and strip_casts(n["l"])["k"] == "ref":
+            if n["k"] == "asg" and root_var(n["l"]) == V_LINE and strip_casts(n["l"])["k"] == "ref":
                 if ln_live:
                     probs.append(("C16.4", "line:overwrite", "line %d: the previous line string is overwritten without being freed" % line(n), line(n)))
                 ln_live = "pending"
-            if n["k"] == "asg" and root_var(n["l"]) == "in_file":
+            if n["k"] == "asg" and root_var(n["l"]) == V_FILE:
                 file_open = "pending"
         if stmt["k"] == "ret":
             if ln_live is True:
@@ -208,14 +220,14 @@ def run(prog, rep):
             return None
         f2 = restrict(f2, TR)
         if ln_live == "pending":
-            if guards.lookup(f2, "dst_line") == 0:
+            if guards.lookup(f2, V_LINE) == 0:
                 ln_live = False
-            elif any(fk == "dst_line" and fop == "!=" and fv == 0 for (fk, fop, fv) in f2):
+            elif any(fk == V_LINE and fop == "!=" and fv == 0 for (fk, fop, fv) in f2):
                 ln_live = True
         if file_open == "pending":
-            if guards.lookup(f2, "in_file") == 0:
+            if guards.lookup(f2, V_FILE) == 0:
                 file_open = False
-            elif any(fk == "in_file" and fop == "!=" and fv == 0 for (fk, fop, fv) in f2):
+            elif any(fk == V_FILE and fop == "!=" and fv == 0 for (fk, fop, fv) in f2):
                 file_open = True
         return (f2, ln_live, file_open)
     Flow(ps, [(guards.EMPTY, False, False)], on_stmt, on_edge, max_states=60000).run()
@@ -243,11 +255,12 @@ def run(prog, rep):
         fc = [c for (b, i, c) in g.calls() if c.get("callee") == "pp_ini_file_find_parameter"]
         okg, msg = len(fc) == 1, "the getter does not look the key up exactly once"
         rets = []
+        VAL = var_assigned_from(g, "pp_ini_file_find_parameter") or "val"
 
         def gs(st, b, i, stmt, rets=rets):
             facts, freed = st
             for c in calls(stmt):
-                if c.get("callee") == "p_free" and root_var(c["args"][0]) == "val":
+                if c.get("callee") == "p_free" and root_var(c["args"][0]) == VAL:
                     freed = True
             if stmt["k"] == "ret":
                 rets.append((facts, freed, stmt))
@@ -255,11 +268,11 @@ def run(prog, rep):
 
         def ge(st, b, to, on):
             f2 = guards.edge_assume(st[0], b, on)
-            return None if f2 is None else (restrict(f2, ("val",)), st[1])
+            return None if f2 is None else (restrict(f2, (VAL,)), st[1])
         Flow(g, [(guards.EMPTY, False)], gs, ge).run()
         dparam = g.param_names()[3] if len(g.param_names()) > 3 else None
         for (facts, freed, r) in rets:
-            missing = guards.lookup(facts, "val") == 0
+            missing = guards.lookup(facts, VAL) == 0
             if missing:
                 e = strip_casts(r.get("e"))
                 if kind == "list":
@@ -273,7 +286,7 @@ def run(prog, rep):
             else:
                 if kind != "string" and not freed:
                     okg, msg = False, "line %d: the looked-up copy of the value is not released on this path" % line(r)
-                if kind == "string" and (strip_casts(r.get("e")) or {}).get("name") != "val":
+                if kind == "string" and (strip_casts(r.get("e")) or {}).get("name") != VAL:
                     okg, msg = False, "line %d: the string getter does not return the looked-up copy" % line(r)
         rep.ob("C16.3", g, "getter", okg, "default on a missing key; the looked-up copy is released on every other path" if okg else msg, g.loc[0])
     rep.floor("C16.3", 7)
@@ -282,14 +295,14 @@ def run(prog, rep):
     # ---- C16.5 ------------------------------------------------------------------------------------
     gi = u.fn("p_ini_file_parameter_int")
     conv = [c for (b, i, c) in gi.calls() if c.get("callee") in ("atoi", "strtol", "strtoul", "atol", "strtoll", "sscanf")]
-    oki = len(conv) == 1 and root_var(conv[0]["args"][0]) == "val" and (conv[0]["callee"] == "atoi" or
+    oki = len(conv) == 1 and root_var(conv[0]["args"][0]) == (var_assigned_from(gi, "pp_ini_file_find_parameter") or "val") and (conv[0]["callee"] == "atoi" or
                                                                        (conv[0]["callee"] in ("strtol", "atol") and (len(conv[0]["args"]) < 3 or cv(conv[0]["args"][2]) == 10)))
     rep.ob("C16.5", gi, "int", oki, "the int getter converts the text as a decimal number (%s)" % conv[0]["callee"] if oki else
            "the int getter converts with %s: the documented decimal (atoi-style) conversion is changed (e.g. 010 or 0x10 are read in another radix)" %
            (show(conv[0]) if conv else "nothing"), conv[0] if conv else gi.loc[0])
     gd = u.fn("p_ini_file_parameter_double")
     conv = [c for (b, i, c) in gd.calls() if c.get("callee") in ("p_strtod", "strtod", "atof", "sscanf")]
-    okd = len(conv) == 1 and conv[0]["callee"] == "p_strtod" and root_var(conv[0]["args"][0]) == "val"
+    okd = len(conv) == 1 and conv[0]["callee"] == "p_strtod" and root_var(conv[0]["args"][0]) == (var_assigned_from(gd, "pp_ini_file_find_parameter") or "val")
     rep.ob("C16.5", gd, "double", okd, "the double getter uses the locale-independent p_strtod" if okd else "the double getter does not use p_strtod (locale-dependent or different syntax)", gd.loc[0])
     gb = u.fn("p_ini_file_parameter_boolean")
     lits = sorted(strip_casts(c["args"][1]).get("v") for (b, i, c) in gb.calls() if c.get("callee") == "strcmp" and strip_casts(c["args"][1])["k"] == "str")
@@ -297,6 +310,9 @@ def run(prog, rep):
     rep.ob("C16.5", gb, "boolean", okb, "the boolean getter recognises true/TRUE/false/FALSE, then a positive number" if okb else "the boolean getter's literals are %s" % lits, gb.loc[0])
     rep.floor("C16.5", 3)
 
+
+# generic robustness battery: renaming every local/parameter in these files must not change any verdict
+RENAME_LOCALS = ['src/pinifile.c']
 
 SELFTEST = [
     dict(id="key-array-512", file="src/pinifile.c", expect="C16.1",
